@@ -434,7 +434,7 @@ func (w *c20World) project(ev verifsupport.Ev, jobNames []string, now uint64) ve
 	njobs := 0
 	for _, name := range jobNames {
 		k, n := c03ParseName(name)
-		if name == "Epoch ticker" || name == "Accounts refresher" || name == "Proposals preparer" {
+		if name == "Epoch ticker" || name == "Account refresh ticker" || name == "Prepare proposals ticker" {
 			continue // periodic
 		}
 		njobs++
@@ -823,12 +823,12 @@ func c20RunReal(t *testing.T, tr *verifsupport.Trace, sc *c20Scenario) {
 	sample := func(ev string) {
 		now := uint64(wall.CurrentSlot())
 		out := w.project(verifsupport.Ev{"ev": ev, "slotms": sc.SlotMs}, sched.ListJobs(ctx), now)
-		// A mark or an attestation job for a slot that ended four and more slots ago belongs to no
+		// A mark or an attestation job for a slot that ended five and more slots ago belongs to no
 		// job that is waiting or running.
 		stale := func(xs []uint64) []uint64 {
 			res := []uint64{}
 			for _, x := range xs {
-				if x+4 <= now {
+				if x+6 <= now {
 					res = append(res, x)
 				}
 			}
@@ -929,8 +929,19 @@ func c20RunReal(t *testing.T, tr *verifsupport.Trace, sc *c20Scenario) {
 			t.Fatalf("c20: unknown step %q", st.Ev)
 		}
 	}
-	// Let the last jobs finish, then look once more.
-	waitUntil(wall.StartOfSlot(phase0.Slot(slot + 6)))
+	// Let the last jobs finish (the chain goes on: a head event per slot, no reorg), then look once more.
+	for k := uint64(1); k <= 8; k++ {
+		waitUntil(wall.StartOfSlot(phase0.Slot(slot + k)).Add(dur / 6))
+		now := uint64(wall.CurrentSlot())
+		e := int64(now / w.p)
+		w.h.mu.Lock()
+		prev := c03Root(e-1, w.h.ver(e-1))
+		cur := c03Root(e, w.h.ver(e))
+		w.h.mu.Unlock()
+		handler(&apiv1.Event{Topic: "head", Data: &apiv1.HeadEvent{
+			Slot: phase0.Slot(now), Block: c03Root(200, int(now)), PreviousDutyDependentRoot: prev, CurrentDutyDependentRoot: cur,
+		}})
+	}
 	sample("Sample")
 	cancel()
 	time.Sleep(50 * time.Millisecond)
